@@ -14,9 +14,9 @@ echo "$t1" | grep -q FAIL && suite=FAIL || suite=pass
 # 2. demo with the change
 cp mutation_out/demo_test.go $pkg/zz_demo_test.go
 go test -vet=off -count=1 -run 'Demo|demo|C[0-9][0-9]' ./$pkg > /tmp/evalmut_demo1.log 2>&1 && demo_with=pass || demo_with=FAIL
-git stash -q -- $(git diff --name-only)
+git diff > /tmp/evalmut_cur.diff; git apply -R /tmp/evalmut_cur.diff
 go test -vet=off -count=1 -run 'Demo|demo|C[0-9][0-9]' ./$pkg > /tmp/evalmut_demo2.log 2>&1 && demo_without=pass || demo_without=FAIL
-git stash pop -q
+git apply /tmp/evalmut_cur.diff
 rm -f $pkg/zz_demo_test.go
 echo "[$id] suite_with_change=$suite demo_with_change=$demo_with demo_without_change=$demo_without"
 # 3. run the check against it
